@@ -2,7 +2,7 @@
 from .. import common as C
 from .. import engine as E
 
-THEOREMS = []
+THEOREMS = ["c04_calls_true", "c04_trace_true"]
 
 
 def run(ctx, H):
